@@ -173,7 +173,7 @@ def extract(repo: Path) -> dict:
     if _one(inits, "_apply_pack ref_status initial value") != d["ok"]:
         raise T.TranslateError("_apply_pack: ref_status is not initialised to the unpack ok literal")
     # try/except structure around the CAS calls
-    fd, fw, bad, bad_types, inner_types = [], [], [], [], []
+    fd, fw, bad, bad_types, inner_types, lock_handlers = [], [], [], [], [], []
     for n in ast.walk(ap):
         if not isinstance(n, ast.Try):
             continue
@@ -186,10 +186,13 @@ def extract(repo: Path) -> dict:
             has_rm = any(_calls_attr(s.test, "remove_if_equals") for s in ifs)
             has_set = any(_calls_attr(s.test, "set_if_equals") for s in ifs)
         if has_rm or has_set:
-            if len(n.handlers) != 1:
-                raise T.TranslateError("_apply_pack: CAS try block with several handlers")
-            inner_types.append(tuple(_exc_names(n.handlers[0].type)))
-            (fd if has_rm else fw).append(_handler_assign(n.handlers[0]))
+            # `except all_exceptions:` possibly preceded by one handler for a held lock (`except FileLocked:`)
+            if len(n.handlers) not in (1, 2):
+                raise T.TranslateError("_apply_pack: CAS try block with more than two handlers")
+            main_h = n.handlers[-1]
+            lock_handlers.append((tuple(_exc_names(n.handlers[0].type)), _handler_assign(n.handlers[0])) if len(n.handlers) == 2 else None)
+            inner_types.append(tuple(_exc_names(main_h.type)))
+            (fd if has_rm else fw).append(_handler_assign(main_h))
         elif any(isinstance(s, (ast.Try, ast.If)) for s in n.body) and _calls_attr(n, "set_if_equals") + _calls_attr(n, "remove_if_equals") \
                 or any("delete refs" in ast.unparse(s) for s in n.body):
             for h in n.handlers:
@@ -201,6 +204,11 @@ def extract(repo: Path) -> dict:
     if _one(inner_types, "CAS try handler type") != ("all_exceptions",):
         raise T.TranslateError("_apply_pack: CAS calls are not guarded by `except all_exceptions`")
     d["bad_ref_catches"] = list(_one(bad_types, "_apply_pack outer handler type"))
+    lh = _one(lock_handlers, "_apply_pack handler in front of `except all_exceptions` (same at every CAS call or nowhere)")
+    d["lock_catches"] = list(lh[0]) if lh else []
+    d["failed_lock"] = lh[1] if lh else None
+    if lh and "all_exceptions" in lh[0]:
+        raise T.TranslateError("_apply_pack: two handlers for all_exceptions")
     # is the boolean returned by the ref container used?
     cas_calls = _calls_attr(ap, "set_if_equals") + _calls_attr(ap, "remove_if_equals")
     bare = [c for c in cas_calls if any(isinstance(s, ast.Expr) and s.value is c for s in ast.walk(ap))]
@@ -259,7 +267,7 @@ def extract(repo: Path) -> dict:
     d["stale"] = d["missing"] = None
     if d["cas_result_used"] or d["atomic_validates_old"] or d["new_object_checked"] or d["atomic_validates_new"]:
         lits = {n.value for n in ast.walk(ap) if isinstance(n, ast.Constant) and isinstance(n.value, bytes)}
-        known = {d[k] for k in ("unpack_name", "ok", "atomic_failed", "failed_delete", "failed_write", "bad_ref", "zero_char")}
+        known = {d[k] for k in ("unpack_name", "ok", "atomic_failed", "failed_delete", "failed_write", "bad_ref", "zero_char", "failed_lock")}
         extra = sorted(lits - known)
         stale = [x for x in extra if b"stale" in x or b"lock" in x or b"expected" in x]
         missing = [x for x in extra if b"missing" in x]
@@ -428,6 +436,10 @@ def failedDeleteMsg : Bytes := {lb(d["failed_delete"])}
 def failedWriteMsg : Bytes := {lb(d["failed_write"])}
 /-- {d["bad_ref"]!r} -/
 def badRefMsg : Bytes := {lb(d["bad_ref"])}
+/-- exception classes of the handler in front of `except all_exceptions` around each compare-and-swap call (a held lock): {", ".join(d["lock_catches"]) or "none in the source"} -/
+def lockCatches : List Bytes := {names(d["lock_catches"])}
+/-- its status ({'from the source' if d['failed_lock'] is not None else 'NOT in the source; wording of the proposed fix'}) -/
+def failedLockMsg : Bytes := {lb(d["failed_lock"] if d["failed_lock"] is not None else b"failed to lock")}
 /-- {d["pre_receive_declined"]!r} (handle) -/
 def preReceiveDeclinedMsg : Bytes := {lb(d["pre_receive_declined"])}
 /-- status for a failed compare-and-swap ({'from the source' if d['stale'] is not None else 'NOT in the source: the CAS result is dropped; wording of the proposed fix'}): {stale!r} -/
@@ -603,6 +615,10 @@ class ServerDir:
         enc = lambda d: {k.encode("latin-1"): v.encode("latin-1") for k, v in (d or {}).items()}  # noqa: E731
         self.reset(enc(st["refs"]), extra_store=st.get("extra", ()), packed=st.get("packed"), loose_after=enc(st.get("loose_after")),
                    symrefs=enc(st.get("symrefs")), head=st["head"].encode("latin-1") if st.get("head") else None)
+        for n in st.get("locks", ()):          # a lock file held by another writer (another push, a concurrent pack-refs)
+            lp = self.path / (n + ".lock")
+            lp.parent.mkdir(parents=True, exist_ok=True)
+            lp.write_bytes(b"")
 
     def open(self):
         from dulwich.repo import Repo
@@ -632,7 +648,7 @@ def read_refs(repo, head: bool = False) -> dict:
     """All refs under refs/ as raw stored values (symbolic refs as b"ref: <target>"); HEAD only on request."""
     out = {}
     for n in repo.refs.allkeys():
-        if n == b"HEAD" and not head:
+        if (n == b"HEAD" and not head) or n.endswith(b".lock"):
             continue
         v = repo.refs.read_ref(n)
         if v is not None:
@@ -670,7 +686,9 @@ def mro_names(exc_type) -> list[bytes]:
 
 def fault_mro(kind: str) -> list[bytes]:
     from dulwich.errors import RefFormatError
-    return {"io": mro_names(NotADirectoryError), "key": mro_names(KeyError), "format": mro_names(RefFormatError)}[kind]
+    from dulwich.file import FileLocked
+    return {"io": mro_names(NotADirectoryError), "key": mro_names(KeyError), "format": mro_names(RefFormatError),
+            "lock": mro_names(FileLocked)}[kind]
 
 
 # ------------------------------------------------------------------------------------------------
@@ -946,8 +964,11 @@ def oracle_wire(ctx, stream, case, pre_refs, pre_store, obs, post_refs, post_mis
         bad = [i for i, c in enumerate(cmds) if faults.get(c[2]) == "format"]
         if bad and obs["raised"] and obs["raised"][0] == "ref-error" and names.index(name) > bad[0]:
             return "bad-refname"      # never reached: the handler died on the invalid name before it
+        lk = [i for i, c in enumerate(cmds) if faults.get(c[2]) == "lock"]
+        if lk and obs["raised"] and obs["raised"][1] == "FileLocked" and names.index(name) > lk[0]:
+            return "lock-held"        # never reached: the handler died on the locked ref before it
         if name in faults:
-            return {"io": "io-failure", "format": "bad-refname", "key": "injected-fault"}[faults[name]]
+            return {"io": "io-failure", "format": "bad-refname", "key": "injected-fault", "lock": "lock-held"}[faults[name]]
         if cur != old:
             return "stale-old"
         return "unexplained"
@@ -995,7 +1016,9 @@ def oracle_wire(ctx, stream, case, pre_refs, pre_store, obs, post_refs, post_mis
                 ctx.oracle_fail(stream, brief, f"{name!r}: reported ok but the ref holds {post!r}, not the requested {target!r}", "wire-ok-but-not-applied")
             if observable and old != new and holds(post_refs, new, name) and not rep_ok:
                 cls = "wire-applied-but-not-reported"
-                if obs["raised"] and obs["raised"][0] == "ref-error" and any(v == "format" for v in faults.values()):
+                if obs["raised"] and obs["raised"][1] == "FileLocked" and any(v == "lock" for v in faults.values()):
+                    cls = "wire-lock-held-aborts-push"
+                elif obs["raised"] and obs["raised"][0] == "ref-error" and any(v == "format" for v in faults.values()):
                     cls = "wire-bad-refname-aborts-push"
                 elif obs["raised"] is None and obs["parsed"] is not None and obs["parsed"][0] == "err":
                     cls = "wire-status-unparseable"
@@ -1082,6 +1105,10 @@ def gen_wire_case(rng, force=None) -> dict:
         elif r < 0.18 and not atomic:
             faults[name] = "key"
             tags.append("inject-key")
+        elif r < 0.24:
+            faults[name] = "lock"
+            st.setdefault("locks", []).append(name)
+            tags.append("lock-held")
         if name in [c[2] for c in cmds] and name in faults:
             continue
         # old value
@@ -1172,6 +1199,9 @@ FIXED_WIRE = [
      "caps": ["report-status", "atomic"]},
     {"path": "wire", "state": {"refs": {}}, "cmds": [["@z", "@1", "refs/heads/x"], ["@z", "@1", "refs/heads/a..b"]],
      "caps": ["report-status"], "faults": {"refs/heads/a..b": "format"}},
+    # the lock of the second ref is held by another writer
+    {"path": "wire", "state": {"refs": {"refs/heads/m": "@2"}, "locks": ["refs/heads/m"]}, "cmds": [["@z", "@1", "refs/heads/x"], ["@2", "@3", "refs/heads/m"]],
+     "caps": ["report-status"], "faults": {"refs/heads/m": "lock"}},
     # plain successes
     {"path": "wire", "state": {"refs": {"refs/heads/m": "@2"}}, "cmds": [["@2", "@4", "refs/heads/m"], ["@z", "@5", "refs/tags/t"]],
      "caps": ["report-status", "side-band-64k"], "pack": {"idx": [4, 5], "variant": "ok"}},
@@ -1616,6 +1646,11 @@ def e2e_push(ctx, sd: ServerDir, case: dict, server: str) -> dict:
             obs["cur_store"] = [i for i in candidate_ids_local(case) if in_store(r2, i)]
         finally:
             r2.close()
+        if case.get("inplace"):
+            # a callback that edits the dict it was given and hands it back (the local and HTTP clients pass a copy)
+            for n_, v_ in cmds:
+                refs[n_] = v_
+            return refs
         return dict(cmds)
 
     def generate_pack_data(have, want, *, ofs_delta=False, progress=None):
@@ -1630,6 +1665,7 @@ def e2e_push(ctx, sd: ServerDir, case: dict, server: str) -> dict:
     try:
         res = cl.send_pack(str(sd.path).encode(), update_refs, generate_pack_data, atomic=bool(case.get("atomic")))
         obs["ref_status"] = None if res.ref_status is None else {bytes(k): v for k, v in res.ref_status.items()}
+        obs["result_refs"] = {bytes(k): (None if v is None else bytes(v)) for k, v in (res.refs or {}).items()}
     except Exception as e:
         obs["raised"] = (type(e).__name__, str(e)[:160])
     finally:
@@ -1661,6 +1697,19 @@ def run_e2e_case(ctx, sd, case, server, stream):
             ctx.oracle_fail(stream, {"case": case, "git": {k.decode(): v.decode() for k, v in gitrefs.items()}},
                             "C git reads different refs from the server repository than dulwich does", "readback-differs")
     oracle_local(ctx, stream, case, obs, post_refs, post_missing, prefix="wire" if server == "dulwich" else "gitsrv")
+    # send_pack returned normally with an EMPTY ref_status (no failure for any ref) and a result that shows the ref at the
+    # requested value: that is a push reported as successful — the server must agree
+    if not obs["raised"] and obs["ref_status"] == {} and obs.get("result_refs") is not None:
+        for c in case["cmds"]:
+            name, new = c[0].encode("latin-1"), c[1].encode()
+            want = None if new == ZERO40 else new
+            if obs["snap"].get(name, ZERO40) == new:
+                continue
+            claimed = obs["result_refs"].get(name, b"?") == want
+            holds = (name not in post_refs) if want is None else resolve(post_refs, name)[1] == want
+            if claimed and not holds:
+                ctx.oracle_fail(stream, {"case": case}, f"send_pack returned without error, ref_status == {{}} and result.refs[{name!r}] == {want!r}, "
+                                f"but nothing was sent: the server ref is {post_refs.get(name)!r}", "client-inplace-callback-silent-noop")
     return obs
 
 
@@ -1669,6 +1718,10 @@ def _stream_e2e(ctx, sd, n_dul, n_git):
     fixed = [expand(c) for c in FIXED_LOCAL[:3]]
     for server, n, stream in (("dulwich", n_dul, "e2e.dulwich-server"), ("git", n_git, "e2e.git-server")):
         cases = fixed + [gen_local_case(rng) for _ in range(n)]
+        for c_ in [json.loads(json.dumps(c_)) for c_ in cases[:max(4, len(cases) // 4)]]:
+            c_["inplace"] = True
+            c_["tags"] = sorted(set(c_.get("tags", [])) | {"inplace-callback"})
+            cases.append(c_)
         for case in cases:
             if server == "git":
                 # C git refuses what it cannot verify; keep the store clause meaningful by not asking for absent objects
@@ -1850,6 +1903,8 @@ def _run_corpus(ctx, sd, ex):
             run_local_case(ctx, sd, case, ex, "corpus", ll, lm)
         elif case["path"] == "race":
             _race_explicit(ctx, case, "corpus")
+        elif case["path"] == "e2e":
+            run_e2e_case(ctx, sd, dict(case, path="local"), "dulwich", "corpus")
     compare_wire_batch(ctx, wl, wm)
     compare_local_batch(ctx, ll, lm)
 
@@ -1883,7 +1938,7 @@ def run(ctx: core.Ctx):
     ]
     ctx.extra_cov["source_behaviour"] = {k: ex.get(k) for k in ("cas_result_used", "new_object_checked", "atomic_validates_old", "atomic_validates_new",
                                                                 "local_checks_new", "local_precheck_checks_new",
-                                                                "bad_ref_catches", "delete_check_client", "local_uses_cas_result",
+                                                                "bad_ref_catches", "lock_catches", "delete_check_client", "local_uses_cas_result",
                                                                 "local_precheck_get_peeled")}
     ctx.extra_cov["fingerprints"] = ex.get("fingerprints")
     sw = [ex.get("cas_result_used"), ex.get("new_object_checked"), ex.get("atomic_validates_old"), ex.get("atomic_validates_new")]
@@ -1989,7 +2044,8 @@ def replay(ctx: core.Ctx, data: dict) -> int:
         obs, pre, post = run_wire_case(ctx, sd, case, "replay", [], [])
         print("replay wire: handler raised:", obs["raised"], "| client statuses:", obs["parsed"])
         print("  refs before:", pre, "\n  refs after: ", post)
-    elif case.get("path") == "local" and stream.startswith(("e2e", "search.e2e")):
+    elif case.get("path") == "e2e" or (case.get("path") == "local" and (stream.startswith(("e2e", "search.e2e")) or case.get("inplace"))):
+        case = dict(case, path="local")
         server = "git" if "git-server" in stream else "dulwich"
         obs = run_e2e_case(ctx, sd, expand(case), server, "replay")
         print(f"replay e2e ({server} server): client raised:", obs["raised"], "| ref_status:", obs["ref_status"])
@@ -2164,6 +2220,7 @@ def _stream_symref(ctx, sd, ex, n_wire, n_local, n_e2e):
 # packed-refs and its lock.  Runs in a worker process (the scheduler patches os.* for the whole process).
 
 RACE_REF = b"refs/heads/m"
+RACE_X = b"refs/heads/x"
 _RACE_RELEVANT = None
 
 
@@ -2172,7 +2229,7 @@ def _race_sched_class():
     from .. import sched
     global _RACE_RELEVANT
     if _RACE_RELEVANT is None:
-        _RACE_RELEVANT = re.compile(r"^(packed-refs|refs/heads/m)(\.lock)?$")
+        _RACE_RELEVANT = re.compile(r"^(packed-refs|refs/heads/m|refs/heads/x)(\.lock)?$")
 
     class RaceSched(sched.Scheduler):
         def _handle(self, who, name, paths, do):
@@ -2207,17 +2264,17 @@ def _race_reset(root: str, sc: dict):
             f.write(cid(1) + b"\n")
 
 
-def _race_read(root: str):
-    """raw value of the ref, read by the harness itself: the loose file wins over packed-refs"""
+def _race_read(root: str, name: str = "refs/heads/m"):
+    """raw value of a ref, read by the harness itself: the loose file wins over packed-refs"""
     try:
-        with open(os.path.join(root, "refs", "heads", "m"), "rb") as f:
+        with open(os.path.join(root, *name.split("/")), "rb") as f:
             return f.read().strip() or None
     except OSError:
         pass
     try:
         with open(os.path.join(root, "packed-refs"), "rb") as f:
             for ln in f.read().splitlines():
-                if ln.endswith(b" refs/heads/m") and not ln.startswith(b"#"):
+                if ln.endswith(b" " + name.encode()) and not ln.startswith(b"#"):
                     return ln.split(b" ")[0]
     except OSError:
         pass
@@ -2238,7 +2295,13 @@ def _race_actor(root: str, spec: dict, out: dict):
                 from dulwich.server import DictBackend, ReceivePackHandler
                 old = spec["old"].encode()
                 out["old"] = old
-                inp = io.BytesIO(pkt_line(old + b" " + new + b" " + RACE_REF + b"\0report-status") + pkt_line(None) + (b"" if new == ZERO40 else pack_bytes([])))
+                caps = b"report-status" + (b" atomic" if spec.get("atomic") else b"")
+                lines_ = [old + b" " + new + b" " + RACE_REF]
+                if spec.get("extra"):            # a command on a ref nobody else touches, BEFORE the contended one
+                    lines_.insert(0, ZERO40 + b" " + spec["extra"].encode() + b" " + RACE_X)
+                lines_[0] += b"\0" + caps
+                need_pack = new != ZERO40 or spec.get("extra")
+                inp = io.BytesIO(b"".join(pkt_line(l_) for l_ in lines_) + pkt_line(None) + (pack_bytes([]) if need_pack else b""))
                 outb = io.BytesIO()
                 try:
                     ReceivePackHandler(DictBackend({"/": repo}), ["/"], Protocol(inp.read, outb.write), stateless_rpc=True).handle()
@@ -2257,6 +2320,10 @@ def _race_actor(root: str, spec: dict, out: dict):
                         out["error"] = "status:" + type(e).__name__
                     out["ok"] = RACE_REF in st and st[RACE_REF] is None
                     out["msg"] = st.get(RACE_REF)
+                    out["x_ok"] = RACE_X in st and st[RACE_X] is None
+            elif path == "repack":
+                out["ok"] = False
+                out["old"] = None
             else:
                 from dulwich.client import LocalGitClient
                 from dulwich.pack import pack_objects_to_data
@@ -2309,7 +2376,9 @@ def _race_run(root: str, sc: dict, prefix: list):
             outs[n].setdefault("error", "actor:" + type(s.results[n].exc).__name__)
             outs[n].setdefault("ok", False)
     final = _race_read(root)
-    return {"choices": choices, "pend": pend, "final": final.decode() if final else None,
+    fx = _race_read(root, "refs/heads/x")
+    final_x = fx.decode() if fx else None
+    return {"choices": choices, "pend": pend, "final": final.decode() if final else None, "final_x": final_x,
             "A": {k: (v.decode() if isinstance(v, bytes) else v) for k, v in outs["A"].items()},
             "B": {k: (v.decode() if isinstance(v, bytes) else v) for k, v in outs["B"].items()},
             "events": [f"{e[0]}:{e[1]}:{'+'.join(map(str, e[2]))}:{e[3]}" for e in ev]}
@@ -2343,6 +2412,21 @@ def race_verdict(sc: dict, run: dict):
             v = None if new == z else new
         return v == run["final"]
     import itertools
+    xa = sc["A"].get("extra")
+    if xa:
+        # the ref only pusher A touches: reported outcome <=> ref state; under atomic, all or none
+        a = run["A"]
+        if run.get("final_x") == xa and not a.get("x_ok"):
+            cls = "race-lock-contention-aborts-push-after-partial-apply" if a.get("error") == "FileLocked" else "race-applied-but-not-reported"
+            return cls, (f"pusher A's command on refs/heads/x was applied (x = {xa}) but no success was reported for it: "
+                         f"the handler ended with {a.get('error')} on the contended ref")
+        if a.get("x_ok") and run.get("final_x") != xa:
+            return "race-ok-but-not-applied", f"pusher A was answered ok for refs/heads/x, which holds {run.get('final_x')}"
+        if sc["A"].get("atomic") and run.get("final_x") == xa and not a.get("ok"):
+            why = a.get("msg") or a.get("error") or ""
+            cls = ("race-atomic-partial-apply-rival-between-validation-and-apply" if "stale" in why
+                   else "race-atomic-partial-apply-lock-contention" if "lock" in why.lower() else "race-atomic-partial-apply")
+            return cls, f"atomic push of A: refs/heads/x was applied, refs/heads/m was not ({why})"
     if any(explain(p_) for p_ in itertools.permutations(ops)):
         return None
     repack = sc["A"].get("repack") or sc["B"].get("repack")
@@ -2417,6 +2501,16 @@ def race_scenarios(thorough: bool) -> list:
         out.append({"storage": storage, "name": f"{storage}:wire-stale-vs-wire-update",
                     "A": {"path": "wire", "old": cid(4).decode(), "new": cid(2).decode()},
                     "B": {"path": "wire", "old": cid(1).decode(), "new": cid(3).decode(), "repack": False}})
+    # a push with two commands whose SECOND ref is contended: the rival holds refs/heads/m.lock (another push) or
+    # packed-refs.lock (pack_refs) while the handler applies command 2 of 2 — after command 1 was applied
+    for storage in ("loose", "packed"):
+        for atomic in (False, True):
+            out.append({"storage": storage, "name": f"{storage}:wire-2cmds{'-atomic' if atomic else ''}-vs-wire-update",
+                        "A": {"path": "wire", "old": cid(1).decode(), "new": cid(2).decode(), "extra": cid(2).decode(), "atomic": atomic},
+                        "B": {"path": "wire", "old": cid(1).decode(), "new": cid(3).decode(), "repack": False}})
+            out.append({"storage": storage, "name": f"{storage}:wire-2cmds{'-atomic' if atomic else ''}-delete-vs-pack-refs",
+                        "A": {"path": "wire", "old": cid(1).decode(), "new": z, "extra": cid(2).decode(), "atomic": atomic},
+                        "B": {"path": "repack", "old": cid(1).decode(), "new": cid(1).decode(), "repack": True}})
     return out
 
 
